@@ -55,7 +55,7 @@ static size_t c11lv_tlv_length(KSI_LIST(KSI_TLV) *l) { return g_lv_tl_len; }
 static int c11lv_tlv_elementAt(KSI_LIST(KSI_TLV) *l, size_t pos, KSI_TLV **o) {
 	int r = c11d_status();
 	__CPROVER_assert(pos < g_lv_tl_len, "protocol: no fetch beyond the TLV list");
-	if (r == KSI_OK) { g_lv_el.tag = nondet_uint(); *o = &g_lv_el; }
+	if (r == KSI_OK) { g_lv_el.tag = nondet_uint(); *o = &g_lv_el; g_lv_cmp = 0; }
 	return r;
 }
 unsigned KSI_TLV_getTag(const KSI_TLV *tlv) { return tlv != NULL ? tlv->tag : 0; }
@@ -66,8 +66,9 @@ int KSI_AggregationHashChain_new(KSI_CTX *ctx, KSI_AggregationHashChain **out) {
 	g_lv_chain_live++; *out = &scratch; return KSI_OK;
 }
 void KSI_AggregationHashChain_free(KSI_AggregationHashChain *t) { if (t != NULL && t != &g_d_cur) { g_lv_chain_live--; } }
-int KSI_AggregationHashChain_compare(const KSI_AggregationHashChain **l, const KSI_AggregationHashChain **r) { return nondet_int(); }
+int KSI_AggregationHashChain_compare(const KSI_AggregationHashChain **l, const KSI_AggregationHashChain **r) { int c = nondet_int(); g_lv_cmp = (c == 0) ? 1 : 2; return c; }
 int KSI_TLV_replaceNestedTlv(KSI_TLV *parent, KSI_TLV *oldTlv, KSI_TLV *newTlv) {
+	__CPROVER_assert(oldTlv == NULL || g_lv_cmp == 1, "the 0x0801 element that is replaced was identified by comparing its parsed chain with the first chain (not by its position: the aggregator's order of the chains is kept in the base TLV)");
 	g_lv.replace_calls++; g_lv.replace_old = oldTlv; g_lv.replace_new = newTlv; g_lv.replace_parent_ok = (parent == &g_d_base);
 	g_lv.replace_res = oldTlv == NULL || newTlv == NULL ? KSI_INVALID_ARGUMENT : c11d_status();
 	if (g_lv.replace_res == KSI_OK) { g_lv.tlv_live--; free(newTlv); }     /* ownership moves into the parent */
